@@ -11,6 +11,7 @@ import (
 	"strconv"
 	"strings"
 
+	"github.com/cespare/xxhash/v2"
 	"github.com/lindb/common/pkg/fasttime"
 	jump "github.com/lithammer/go-jump-consistent-hash"
 
@@ -76,6 +77,8 @@ func (area) Run(c *core.Ctx) error {
 				caseInfluxFields(c, r)
 			case i%16 == 1:
 				casePooledHistory(c, r)
+			case i%16 == 14:
+				caseProtoHistory(c, r)
 			case i%8 == 7:
 				caseSingle(c, r, 120) // malformed stream
 			default:
@@ -221,6 +224,87 @@ func checkCanonical(c *core.Ctx, what string, cf *cfg, m *lmetric, o *obs, t0, t
 	if o.hash != hashOfTags(o.tags) {
 		c.Fail("hash-not-of-stored-tags", fmt.Sprintf("%s: stored tags hash %d, xxhash of the stored tags %d", what, o.hash, hashOfTags(o.tags)))
 	}
+	checkIdentity(c, what, o)
+}
+
+// hashOfStoredName: the metric identity as a function of the STORED spelling — xxhash of the stored
+// (raw) namespace followed by the stored name, which is what every format's builder computes
+// (hashOfName of the protobuf converter, RowBuilder._xxHashOfName for flat rows and influx lines).
+func hashOfStoredName(o *obs) uint64 { return xxhash.Sum64String(o.rawNs + o.name) }
+
+// checkIdentity: the stored NameHash (the key of the memory database's metric and series stores) must
+// be the hash of the namespace and name the row is stored under. A hash of any other spelling (e.g. the
+// one that was sent, before '|' became '_') gives one stored metric two identities.
+func checkIdentity(c *core.Ctx, what string, o *obs) {
+	if strings.ContainsRune(o.name, '|') || strings.ContainsRune(o.rawNs, '|') {
+		c.Fail("stored-name-not-sanitised", fmt.Sprintf("%s: stored namespace %q / name %q contain the storage delimiter '|'", what, o.rawNs, o.name))
+	}
+	if want := hashOfStoredName(o); o.nameHash != want {
+		c.Fail("name-hash-not-hash-of-stored-name", fmt.Sprintf("%s: stored under namespace %q name %q with NameHash %d; the hash of the stored namespace+name is %d", what, o.rawNs, o.name, o.nameHash, want))
+	}
+}
+
+// shardCounts: the shard counts every single-metric case asks the real shard iterator about.
+var shardCounts = [3]int{3, 7, 64}
+
+// realShards: the shard the real NewShardGroupIterator assigns to the only row of b, per shard count.
+func realShards(b *metric.BrokerBatchRows) (out [3]int) {
+	for k, n := range shardCounts {
+		out[k] = func() (sh int) {
+			defer func() {
+				if recover() != nil {
+					sh = -1
+				}
+			}()
+			it := b.NewShardGroupIterator(int32(n))
+			if !it.HasRowsForNextShard() {
+				return -2
+			}
+			sh, _ = it.FamilyRowsForNextShard(timeutil.Interval(10 * 1000))
+			return sh
+		}()
+	}
+	return out
+}
+
+// checkSpellingInvariance: a metric whose name / namespace contains a character that sanitising
+// rewrites ('|') and the same metric sent in the sanitised spelling are ONE stored metric: every
+// format must store them as the same row with the same identity (namespace, name, NameHash, tags hash).
+func checkSpellingInvariance(c *core.Ctx, cf *cfg, m *lmetric, o *obs, t0, t1 int64) {
+	effNs := m.ns
+	if cf.reqNs != "" {
+		effNs = cf.reqNs
+	}
+	if !strings.ContainsRune(m.name, '|') && !strings.ContainsRune(effNs, '|') {
+		return
+	}
+	c.Branch("identity/spelling-with-sanitised-character")
+	m2 := m.clone()
+	m2.name, m2.ns = sanitizeName(m.name), sanitizeName(m.ns)
+	cf2 := *cf
+	cf2.reqNs = sanitizeName(cf.reqNs)
+	same := func(what string, a, b *obs) {
+		if a.name != b.name || a.rawNs != b.rawNs || a.nameHash != b.nameHash || a.hash != b.hash || a.line(m.ts, t0, t1+5000) != b.line(m.ts, t0, t1+5000) {
+			c.Fail("identity-depends-on-unsanitised-spelling", fmt.Sprintf("%s: namespace %q name %q is stored as {ns=%q name=%q nameHash=%d tagsHash=%d}, the sanitised spelling %q %q as {ns=%q name=%q nameHash=%d tagsHash=%d}: one stored metric, two identities",
+				what, effNs, m.name, a.rawNs, a.name, a.nameHash, a.hash, sanitizeName(effNs), m2.name, b.rawNs, b.name, b.nameHash, b.hash))
+		}
+	}
+	var row2 metric.BrokerRow
+	if err, _, _ := convertProto(&cf2, m2, &row2); err != nil {
+		c.Fail("identity-depends-on-unsanitised-spelling", fmt.Sprintf("proto: %q / %q accepted, its sanitised spelling rejected: %v", effNs, m.name, err))
+	} else if o2, _ := observe(&row2); o2 != nil {
+		same("proto", o, o2)
+	}
+	if m.flatExpressible() {
+		fa, ea := flatAlone(cf, m)
+		fb, eb := flatAlone(&cf2, m2)
+		switch {
+		case (ea == nil) != (eb == nil):
+			c.Fail("identity-depends-on-unsanitised-spelling", fmt.Sprintf("flat: %q / %q and its sanitised spelling: one accepted, one rejected (%v / %v)", effNs, m.name, ea, eb))
+		case ea == nil:
+			same("flat", fa, fb)
+		}
+	}
 }
 
 func caseSingle(c *core.Ctx, r *rand.Rand, bad int) {
@@ -334,11 +418,20 @@ func caseSingle(c *core.Ctx, r *rand.Rand, bad int) {
 		}
 		c.Branch("permutations-checked")
 	}
+	checkSpellingInvariance(c, cf, m, o, t0, t1)
 	// the same metric through ingestion/proto.Parse (marshalled MetricList)
+	o.shards = [3]int{-3, -3, -3}
 	if b, err := parseProtoBytes(cf, []*lmetric{m}); err != nil || b.Len() != 1 {
 		c.Fail("proto-parse-disagrees", fmt.Sprintf("converter accepted but proto.Parse gave err=%v", err))
 	} else if o3, _ := observe(&b.Rows()[0]); o3 == nil || (cons || len(sent) <= 12) && o3.line(m.ts, t0, t1+1000) != o.line(m.ts, t0, t1) {
 		c.Fail("proto-parse-disagrees", "proto.Parse stored a different row than the converter")
+	} else {
+		o.shards = realShards(b)
+		for k, n := range shardCounts {
+			if want := int(jump.Hash(o.hash, int32(n))); o.shards[k] != want {
+				c.Fail("row-in-wrong-shard", fmt.Sprintf("proto: row with tags hash %d goes to shard %d of %d, jump hash says %d", o.hash, o.shards[k], n, want))
+			}
+		}
 	}
 	formatAgreement(c, cf, m, o, cons, t0)
 }
@@ -407,6 +500,18 @@ func formatAgreement(c *core.Ctx, cf *cfg, m *lmetric, o *obs, cons bool, t0 int
 		if cons && (concatTags(o2.tags) != concatTags(o.tags) || o2.hash != o.hash) {
 			c.Fail("format-disagreement-tags:"+what, fmt.Sprintf("%s stores tags %s hash %d, proto %s hash %d", what, concatTags(o2.tags), o2.hash, concatTags(o.tags), o.hash))
 		}
+		// the full stored identity: same stored namespace and name ⇒ same NameHash; same tags hash ⇒ same shard
+		switch {
+		case o2.rawNs != o.rawNs:
+			c.Branch("format-identity/raw-namespace-differs") // namespace precedence / fall-back differences, judged above
+		case o2.nameHash != o.nameHash:
+			c.Fail("format-disagreement-identity:"+what, fmt.Sprintf("namespace %q name %q: %s stores NameHash %d, proto %d (hash of the stored spelling: %d)", o.rawNs, o.name, what, o2.nameHash, o.nameHash, hashOfStoredName(o)))
+		default:
+			c.Branch("format-identity/name-hash-compared")
+		}
+		if o2.hash == o.hash && o.shards[0] != -3 && o2.shards != o.shards {
+			c.Fail("format-disagreement-shard:"+what, fmt.Sprintf("same tags hash %d: %s row goes to shards %v, proto row to %v (shard counts %v)", o.hash, what, o2.shards, o.shards, shardCounts))
+		}
 	}
 	if m.flatExpressible() {
 		b, err := parseFlat(cf, []*lmetric{m})
@@ -422,6 +527,7 @@ func formatAgreement(c *core.Ctx, cf *cfg, m *lmetric, o *obs, cons bool, t0 int
 				c.Fail("row-unreadable", "flat: "+mism)
 			} else {
 				c.Branch("flat-agreement-checked")
+				o2.shards = realShards(b)
 				checkCanonical(c, "flat", cf, m, o2, t0, fasttime.UnixMilliseconds())
 				cmp("flat", o2)
 			}
@@ -456,6 +562,7 @@ func formatAgreement(c *core.Ctx, cf *cfg, m *lmetric, o *obs, cons bool, t0 int
 				c.Fail("row-unreadable", "influx: "+mism)
 			} else {
 				c.Branch("influx-agreement-checked")
+				o2.shards = realShards(b)
 				nsDiffers = false
 				// name / tags / fields against the logical metric …
 				if o2.name != sanitizeName(m.name) || !sameTagSet(o2.tags, sent(cf, m)) && cons {
@@ -1770,4 +1877,103 @@ func streamShape(ms []*lmetric, cut int) string {
 		sb.WriteByte(' ')
 	}
 	return sb.String()
+}
+
+// ---------------------------------------------------------------- request histories on one pooled protobuf converter
+
+// brandNewConverter: a converter that never converted anything (the pool is emptied first: converters are
+// taken and not given back until a brand-new one comes out).
+func brandNewConverter(cf *cfg) *metric.BrokerRowProtoConverter {
+	var cv *metric.BrokerRowProtoConverter
+	for k := 0; k < 4; k++ {
+		cv, _ = metric.NewBrokerRowProtoConverter([]byte(cf.reqNs), cf.realEnriched(), cf.lim.real())
+	}
+	return cv
+}
+
+// caseProtoHistory: 2-4 write requests, each with its own namespace / enriched tags / limits and 1-5 metrics
+// (valid ones of very different sizes, rejected ones at every rule), go through ONE pooled converter the way
+// ingestion/proto.Parse uses it: NewBrokerRowProtoConverter (rowConverterPool.Get + Reset), ConvertTo per
+// metric, release. Every verdict and stored row is compared with the Lean state machine of the converter
+// (ops pnew / pconv: offset slices, namespace, enriched tags, hash buffer carried across rows and requests)
+// and with what a brand-new converter gives for the metric alone.
+func caseProtoHistory(c *core.Ctx, r *rand.Rand) {
+	nreq := 2 + r.Intn(3)
+	var prev *metric.BrokerRowProtoConverter
+	for q := 0; q < nreq; q++ {
+		cf := genCfg(r)
+		c.Op(cf.enc(), "ok")
+		var cv *metric.BrokerRowProtoConverter
+		var release func(*metric.BrokerRowProtoConverter)
+		if q == 0 && r.Intn(2) == 0 {
+			cv = brandNewConverter(cf)
+			release = func(x *metric.BrokerRowProtoConverter) {
+				_, rel := metric.NewBrokerRowProtoConverter(nil, nil, cf.lim.real())
+				rel(x)
+			}
+			c.Op("pnew fresh", "ok")
+		} else {
+			cv, release = metric.NewBrokerRowProtoConverter([]byte(cf.reqNs), cf.realEnriched(), cf.lim.real())
+			c.Op("pnew pooled", "ok")
+			if cv == prev {
+				c.Branch("proto-history/pooled-converter-reused")
+			}
+		}
+		for k := 1 + r.Intn(5); k > 0; k-- {
+			bad := 0
+			if r.Intn(3) == 0 {
+				bad = 100
+			}
+			ts := int64(1600000000000 + r.Int63n(200000000000))
+			if r.Intn(10) == 0 {
+				ts = 0
+			}
+			m := genMetric(r, bad, ts)
+			if !sortSafe(cf, m) {
+				if len(m.tags) > 8 {
+					m.tags = m.tags[:8]
+				}
+				if !sortSafe(cf, m) {
+					m.tags = nil
+				}
+			}
+			var row metric.BrokerRow
+			t0 := fasttime.UnixMilliseconds()
+			err := cv.ConvertTo(m.toProto(), &row)
+			t1 := fasttime.UnixMilliseconds()
+			c.NonTrivial()
+			// the same metric through a converter without history
+			var alone metric.BrokerRow
+			errAlone := brandNewConverter(cf).ConvertTo(m.toProto(), &alone)
+			if err != nil {
+				kd := errKind(err)
+				c.Op("pconv "+m.enc(), "err "+kd)
+				c.Branch("proto-history/reject/" + kd)
+				if errAlone == nil || errKind(errAlone) != kd {
+					c.Fail("proto-row-depends-on-converter-history", fmt.Sprintf("request %d of %d on the pooled converter: %s is rejected (%s), a brand-new converter says %v", q+1, nreq, m.enc(), kd, errAlone))
+				}
+				continue
+			}
+			o, mism := observe(&row)
+			if o == nil {
+				c.Op("pconv "+m.enc(), "unreadable")
+				c.Fail("row-unreadable", "proto history: "+mism)
+				continue
+			}
+			c.Op("pconv "+m.enc(), o.line(m.ts, t0, t1))
+			c.Branch("proto-history/accept")
+			checkCanonical(c, "proto history", cf, m, o, t0, t1)
+			if errAlone != nil {
+				c.Fail("proto-row-depends-on-converter-history", fmt.Sprintf("request %d of %d on the pooled converter: %s is stored, a brand-new converter rejects it (%v)", q+1, nreq, m.enc(), errAlone))
+			} else if oa, _ := observe(&alone); oa == nil || oa.line(m.ts, t0, t1+5000) != o.line(m.ts, t0, t1+5000) {
+				got := "unreadable"
+				if oa != nil {
+					got = oa.line(m.ts, t0, t1+5000)
+				}
+				c.Fail("proto-row-depends-on-converter-history", fmt.Sprintf("request %d of %d on the pooled converter stores %s, a brand-new converter %s", q+1, nreq, o.line(m.ts, t0, t1+5000), got))
+			}
+		}
+		release(cv)
+		prev = cv
+	}
 }
